@@ -120,7 +120,7 @@ pub fn generate(seed: u64, tier: &str, sink: &mut Sink) {
         }
     }
     // ---- the decision as send() uses it: per hop of a redirect chain (dial peer, target form, Host)
-    crate::p_c09::generate_chains(seed ^ 0xC11C, if thorough { 3000 } else { 250 }, true, sink);
+    crate::p_c09::generate_chains(seed ^ 0xC11C, if thorough { 3000 } else { 250 }, true, false, sink);
     // ---- from_env: assignments of the eight variables
     let proxy_vals: [Option<&str>; 7] = [None, Some(""), Some("  "), Some("http://env-h.test:8080"), Some("https://env-s.test"), Some("socks5://socks.test:1080"), Some("not a url")];
     let np_vals: [Option<&str>; 10] = [None, Some(""), Some("*"), Some(" * "), Some("a.b,ab"), Some(" a.b , .ab ,, B "), Some("A.B"), Some(".b"), Some("localhost, "), Some("., a.b")];
